@@ -18,8 +18,9 @@ def run(R, tier, seed, only=None):
         import kchecks
         d = core.Driver(drv)
         kchecks.check_frame(R, d, tier, want=("spec",))
+        kchecks.check_roll(R, d, tier, want=("spec",))
         d.close()
-        R.cov.setdefault("kernel_bounds", {}).update({"K-frame": "kind rows|range, each bound any i64 or absent"})
+        R.cov.setdefault("kernel_bounds", {}).update({"K-frame": "kind rows|range, each bound any i64 or absent", "K-roll": "expanding any bool, rolling any i64, rows/range bounds any i64 or absent"})
     R.cov["bounds"] = {"rows_per_table": k, "value_range": "|v| <= 2^20", "targets": ["sql.sqlite", "sql.generic"], "family": families.family_c04.__doc__ or "window functions"}
     R.cov["functions_encoded"] = ["prqlc::compile per program; emitted SQL encoded by engines/symdb/sqlsem.py (binder + bag/sequence semantics)"]
     R.cov["trusted_base"] = propcheck.TRUSTED + ["rustc nightly MIR front end", "engines/mirsym (MIR interpreter + std models)"]
